@@ -83,10 +83,15 @@ struct Outcome {
     res: &'static str,
     nw: usize,
     mem: Vec<u8>,
+    panic: Option<String>,
 }
 
 /// Call the real `write_c_str` on the region `[base, base+len)` of a copy of `mem`.
-fn real<T: fmt::Display>(mem: &[u8], base: usize, len: usize, v: &T) -> Result<Outcome, String> {
+///
+/// `buggy::Bug` is constructed by panicking when `debug_assertions` are on (the harness
+/// profile) and returned as `Err(Bug)` otherwise; the panic carrying the `assume` message of
+/// `write_c_str` is therefore the `bug` outcome, any other panic is a real panic.
+fn real<T: fmt::Display>(mem: &[u8], base: usize, len: usize, v: &T) -> Outcome {
     let mut m = mem.to_vec();
     let mut nw: usize = 0xdead_beef;
     let r = {
@@ -97,18 +102,14 @@ fn real<T: fmt::Display>(mem: &[u8], base: usize, len: usize, v: &T) -> Result<O
         let nwr = &mut nw;
         vh::catch(std::panic::AssertUnwindSafe(move || write_c_str(dst, v, nwr)))
     };
-    match r {
-        Err(p) => Err(p),
-        Ok(r) => Ok(Outcome {
-            res: match r {
-                Ok(()) => "ok",
-                Err(WriteCStrError::BufferTooSmall) => "small",
-                Err(WriteCStrError::Bug(_)) => "bug",
-            },
-            nw,
-            mem: m,
-        }),
-    }
+    let (res, panic) = match r {
+        Err(p) if p.contains("`write!` to `Writer` should not fail") => ("bug", None),
+        Err(p) => ("panic", Some(p)),
+        Ok(Ok(())) => ("ok", None),
+        Ok(Err(WriteCStrError::BufferTooSmall)) => ("small", None),
+        Ok(Err(WriteCStrError::Bug(_))) => ("bug", None),
+    };
+    Outcome { res, nw, mem: m, panic }
 }
 
 fn request(base: usize, len: usize, mem: &[u8], fails: bool, frags: &[String]) -> String {
@@ -134,12 +135,12 @@ fn one<T: fmt::Display>(
     let text: Vec<u8> = frags.iter().flat_map(|f| f.as_bytes().iter().copied()).collect();
     let total = text.len();
     match real(mem, base, len, v) {
-        Err(p) => {
-            rec.line(req.clone(), format!("panic 0 {}", hex(mem)));
+        Outcome { panic: Some(p), nw, mem: m, .. } => {
+            rec.line(req.clone(), format!("panic {nw} {}", hex(&m)));
             rec.panics.push(format!("{req} :: {p}"));
             rec.count("outcome:panic");
         }
-        Ok(o) => {
+        o => {
             rec.line(req.clone(), format!("{} {} {}", o.res, o.nw, hex(&o.mem)));
             rec.count(&format!("outcome:{}", o.res));
             let mut bad: Vec<String> = vec![];
@@ -199,7 +200,11 @@ fn gen_str(rng: &mut Rng, max: u64) -> String {
 
 fn sizes(rng: &mut Rng, total: usize, exhaustive: bool) -> Vec<usize> {
     if exhaustive || total <= 64 {
-        (0..=total + 3).collect()
+        // every size up to total+3, plus two roomier buffers
+        let mut v: Vec<usize> = (0..=total + 3).collect();
+        v.push(total + 4 + rng.below(8) as usize);
+        v.push(total + 12 + rng.below(64) as usize);
+        v
     } else {
         let mut v = vec![0, 1, 2, total - 1, total, total + 1, total + 2, total + 3];
         for _ in 0..8 {
